@@ -390,6 +390,7 @@ impl<'c, 's> Run<'c, 's> {
             }
         }
         self.nodes[ni].ctx.set_uuid(&u);
+        self.nodes[ni].twin.set_uuid(&u);
         self.nodes[ni].m_uuid = u;
         self.ev("app.set_uuid", &[ni as u64], &u);
         self.check_state(ni, "after-set-uuid");
@@ -405,9 +406,11 @@ impl<'c, 's> Run<'c, 's> {
         self.dict_add(v);
         if half == 0 {
             self.nodes[ni].ctx.get_request().set_eid(v);
+            self.nodes[ni].twin.get_request().set_eid(v);
             self.nodes[ni].m_eid_req = Some(v);
         } else {
             self.nodes[ni].ctx.get_response().set_eid(v);
+            self.nodes[ni].twin.get_response().set_eid(v);
             self.nodes[ni].m_eid_resp = Some(v);
         }
         if self.nodes[ni].m_eid_req != self.nodes[ni].m_eid_resp {
@@ -437,8 +440,13 @@ impl<'c, 's> Run<'c, 's> {
             ctx.set_uuid(&b);
             u = b;
         }
+        let mut twin = MCTPSMBusContext::new(nc.addr, &nc.types, &nc.vendors);
+        if let Some(b) = nc.boot_uuid {
+            twin.set_uuid(&b);
+        }
         let node = &mut self.nodes[ni];
         node.ctx = ctx;
+        node.twin = twin;
         node.m_eid_req = Some(0);
         node.m_eid_resp = Some(0);
         node.m_uuid = u;
@@ -801,6 +809,22 @@ impl<'c, 's> Run<'c, 's> {
         };
         self.st.lib_calls += 1;
         self.nodes[ni].tx_used = true;
+        {
+            // the twin makes the same encoder call into its own persistent buffer
+            let rt = {
+                let node = &mut self.nodes[ni];
+                let (tw, ttx) = (&node.twin, &mut node.twin_tx);
+                trap(|| call.invoke(tw, &mut ttx[..slice_len]))
+            };
+            let show = |r: &Result<Result<usize, ()>, (crate::trap::PanicKind, String)>, buf: &[u8]| match r {
+                Ok(Ok(l)) => format!("Ok({}) {}", l, hex(&buf[..(*l).min(buf.len())])),
+                Ok(Err(())) => "Err".to_string(),
+                Err((k, _)) => format!("PANIC({})", k.name()),
+            };
+            let a = show(&r, &self.nodes[ni].tx);
+            let b = show(&rt, &self.nodes[ni].twin_tx);
+            self.twin_compare(ni, "encoder", a, b, &[]);
+        }
         {
             let d = call.describe();
             self.dg.str(api);
